@@ -21,6 +21,9 @@ def scenario(rng, again=None):
     sc = dict(msgs=msgs, hook=rng.choice(('none', 'none', 'sending', 'received', 'error', 'all')),
               stalls=rng.choice((0, 0, 1, 2)), drops=rng.choice((0, 0, 0, 1)), seed=rng.randrange(10 ** 9),
               put_hook=rng.random() < 0.3, order=rng.choice((1, 7)))
+    for m in msgs:
+        if not m['seg'] and rng.random() < 0.3:
+            m['ucs'] = True
     if rng.random() < 0.2:
         sc['persist'] = True
         for m in msgs:
@@ -35,6 +38,13 @@ def scenario(rng, again=None):
                 dict(at=round(t_drop + 4.0, 3), log='L2', seg=False, react='ok')]
         return dict(msgs=msgs, hook='none', stalls=0, drops=0, drop_at=[t_drop], refuse=[1], seed=rng.randrange(10 ** 9),
                     put_hook=False, order=rng.choice((1, 7)))
+    if rng.random() < 0.08:
+        # a message with a text outside the GSM alphabet whose first transmission fails (the link is reset while it is written)
+        # and which the application queues again - the very same object - after the failure was reported
+        msgs = [dict(at=round(rng.uniform(0.5, 2.0), 3), log='L1', seg=False, react='reset', ucs=True),
+                dict(at=round(rng.uniform(2.5, 4.0), 3), log='L2', seg=False, react='ok')]
+        return dict(msgs=msgs, hook='none', stalls=0, drops=0, seed=rng.randrange(10 ** 9), put_hook=False, order=rng.choice((1, 7)),
+                    again=dict(log='L1', mode='same', after=round(rng.uniform(9.0, 12.0), 3)))
     if rng.random() < 0.08:
         # an undisturbed session in which the SMSC refuses messages: every other error response comes without a body
         # (sequence numbers 2, 3, 4, ... in the order queued)
@@ -211,6 +221,8 @@ def run(sc):
         queued = []
         for m in sc['msgs']:
             text = ('segmented text ' * 30) if m['seg'] else 'hello'
+            if m.get('ucs') and not m['seg'] and not m.get('odd'):
+                text = 'Zo\xeb says hi \u2713'          # outside the GSM alphabet: goes out as UCS2 (data_coding 8), also when sent again
             if m.get('odd'):
                 # text as a careless client may hand it over: cut in the middle of a surrogate pair, Latin-1 and astral
                 # characters; sent with error_handling='replace'
@@ -253,6 +265,7 @@ def run(sc):
         s.at(40.0, s.stop)
         s.run(200)
         ev = list(s.events)
+        sc['_wire'] = [bytes(p).hex() for c in s.smsc.conns for p in c.pdus if p[4:8] == b'\x00\x00\x00\x04']
     finally:
         s.close()
         if pdir:
@@ -500,6 +513,29 @@ def predicate14(sc, ev):
     return None
 
 
+def wire_text_check(sc):
+    """every submit_sm on the wire that belongs to an unsegmented message with a text outside the GSM alphabet announces
+    UCS2 and carries the UTF-16-BE octets of the text - the first time and every time it is sent again"""
+    from corr.c08 import parse_submit_full
+    seq_log = {int(k): v for k, v in dict(sc.get('_seq_log', {})).items()}
+    ucs = {m['log'] for m in sc['msgs'] if m.get('ucs') and not m['seg'] and not m.get('odd')}
+    want = 'Zo\xeb says hi \u2713'
+    for h in sc.get('_wire', []):
+        p = bytes.fromhex(h)
+        seq = struct.unpack('!I', p[12:16])[0]
+        log = seq_log.get(seq)
+        if log is None or log.rstrip('c') not in ucs:
+            continue
+        try:
+            g = parse_submit_full(p)
+            got = g['sm'].decode('utf-16-be') if g['dc'] == 8 else None
+        except Exception as e:      # noqa
+            return 'a submit_sm of message %s cannot be read (%r)' % (log, e)
+        if got != want:
+            return 'message %s (text outside the GSM alphabet) went out with data_coding %d and octets %s' % (log, g['dc'], g['sm'].hex()[:40])
+    return None
+
+
 def case_of(sc, which='ledger'):
     ev = run(sc)
     if which == 'c13':
@@ -508,6 +544,8 @@ def case_of(sc, which='ledger'):
         fail, kind = predicate14(sc, ev), None
     else:
         fail, kind = predicate(sc, ev)
+    if fail is None:
+        fail = wire_text_check(sc)
     sig = ('session-ledger', sc['hook'], sc['stalls'], sc['drops'] + len(sc.get('drop_at', ())), sc['put_hook'],
            tuple(sorted({(m['react'], m['seg']) for m in sc['msgs']}))[:4], (sc.get('again') or {}).get('mode'))
     pub = {k: v for k, v in sc.items() if not k.startswith('_')}
